@@ -4,10 +4,18 @@
 (*                                                                         *)
 (* A behaviour of this specification builds one SCOPE TREE and then runs   *)
 (* the renamers on it:                                                     *)
-(*   phase "scopes": files (module scopes that the linker merges into one  *)
-(*          chunk scope) and nested scopes (function, arrow, block, catch, *)
-(*          for, class-with-static-block, with), optionally with a direct  *)
-(*          eval inside;                                                   *)
+(*   phase "files":  files (module scopes that the linker merges into one  *)
+(*          chunk scope), each with a wrapper kind: "none" (plain ES       *)
+(*          module: its top-level symbols are top-level symbols of the     *)
+(*          chunk), "lazy-*" (ES module wrapped in an __esm closure: its   *)
+(*          top-level symbols are hoisted out of the closure, i.e. they    *)
+(*          are top-level symbols of the chunk too) or "cjs-*" (CommonJS   *)
+(*          module wrapped in a __commonJS closure: its module scope is a  *)
+(*          function scope nested in the chunk scope; free names inside it *)
+(*          still resolve through the chunk scope);                        *)
+(*   phase "scopes": nested scopes (function, arrow, block, catch, for,    *)
+(*          class-with-static-block, with), optionally with a direct eval  *)
+(*          inside;                                                        *)
 (*   phase "decls":  declarations (var hoisted out of blocks/catch/for,    *)
 (*          let/const/class, function declarations incl. function-in-      *)
 (*          block, parameters, catch parameters, the self-binding of a     *)
@@ -36,6 +44,11 @@ CONSTANTS
   DeclKinds,    \* subset of {"var","let","const","class","fun","param","cparam","self"}
   MaxFiles, MaxScopes, MaxDecls, MaxRefs,
   Sloppy,       \* TRUE: one sloppy script emitted without wrapper; FALSE: strict ES modules bundled into one chunk
+  Wraps,        \* wrapper kinds files 2.. may have besides "none": subset of
+                \* {"cjs-m", "cjs-e", "cjs-r", "lazy-r", "lazy-i"} (how the file becomes wrapped: module.exports / exports.x /
+                \* no export syntax but require()d; ES module that is require()d / import()ed without splitting)
+  ReserveWrappedFree,   \* TRUE: as designed and implemented (renameSymbolsInChunk passes the module scopes of ALL files
+                        \* of the chunk to ComputeReservedNames); FALSE: free names used inside CommonJS-wrapped files are not reserved
   AllowEval,    \* direct eval may occur in a scope (Sloppy only)
   ParamRefs,    \* references may occur in parameter defaults
   ReservePinnedNested,  \* TRUE: the intended design (every pinned name is reserved);
@@ -72,6 +85,8 @@ ND == Len(decls)
 NR == Len(refs)
 Kind(s) == scopes[s].kind
 Par(s) == scopes[s].parent
+IsCJS(w) == w \in {"cjs-m", "cjs-e", "cjs-r"}
+ASSUME Wraps \subseteq {"cjs-m", "cjs-e", "cjs-r", "lazy-r", "lazy-i"}
 FnLike(s) == Kind(s) \in {"file", "fn", "arrow", "cls"}     \* var-hoisting targets
 BlockLike(s) == ~FnLike(s)
 
@@ -79,6 +94,10 @@ RECURSIVE Anc(_)
 Anc(s) == IF s = 0 THEN {} ELSE {s} \cup Anc(Par(s))        \* s and its ancestors
 RECURSIVE Hoist(_)
 Hoist(s) == IF FnLike(s) THEN s ELSE Hoist(Par(s))
+RECURSIVE FileOf(_)
+FileOf(s) == IF Par(s) = 0 THEN s ELSE FileOf(Par(s))
+CJSFile(s) == Kind(s) = "file" /\ IsCJS(scopes[s].wrap)     \* module scope = body of the __commonJS closure
+InCJS(s) == CJSFile(FileOf(s))
 Path(s, t) == Anc(s) \ Anc(Par(t))                          \* from s up to its ancestor t, inclusive
 Strict(s) == ~Sloppy \/ \E u \in Anc(s) : Kind(u) = "cls"   \* class bodies are strict code
 EvalTainted == UNION {Anc(s) : s \in {u \in 1..NS : scopes[u].ev}}
@@ -89,9 +108,10 @@ Cand(S) == IF Sample = 0 \/ Cardinality(S) <= Sample THEN S ELSE RandomSubset(Sa
 -----------------------------------------------------------------------------
 (* Declarations and the bindings they create                                *)
 
-\* function declarations are lexical in blocks and at the top level of a module
+\* function declarations are lexical in blocks and at the top level of an ES module
+\* (the top level of a CommonJS module is a function body: var-like)
 Lexical(d) == \/ d.kind \in {"let", "const", "class"}
-              \/ d.kind = "fun" /\ (BlockLike(d.scope) \/ (Kind(d.scope) = "file" /\ ~Sloppy))
+              \/ d.kind = "fun" /\ (BlockLike(d.scope) \/ (Kind(d.scope) = "file" /\ ~Sloppy /\ ~CJSFile(d.scope)))
 VarPath(d) == Path(d.scope, Hoist(d.scope))                 \* scopes a hoisted var passes through
 
 \* would two declarations of the same name be an early error?
@@ -149,15 +169,24 @@ DeclBinds(i) ==
 (* at level lvl the name n is bound to (original binding) o; par: it is a   *)
 (* parameter.  po: the reference is in a parameter default of s, where only *)
 (* the parameters of s (and the levels outside) are visible.                *)
-RECURSIVE Look(_, _, _, _)
-Look(BS, n, s, po) ==
-  IF s = 0 THEN Free(n)
+(* merged = FALSE: the input, every file is a module of its own (past the   *)
+(* file: a free name).  merged = TRUE: the output chunk, where the top-     *)
+(* level bindings of all files that are not CommonJS-wrapped live in one    *)
+(* chunk scope that every file (also the body of a __commonJS closure)      *)
+(* sees past its own scope.                                                 *)
+RECURSIVE LookG(_, _, _, _, _)
+LookG(BS, n, s, po, merged) ==
+  IF s = 0 THEN
+       LET ch == {b \in BS : b.lvl = "m" /\ b.n = n /\ Kind(b.s) = "file" /\ ~CJSFile(b.s)} IN
+       IF merged /\ ch # {} THEN (CHOOSE b \in ch : TRUE).o ELSE Free(n)
   ELSE LET m == {b \in BS : b.s = s /\ b.lvl = "m" /\ b.n = n /\ (po => b.par)}
            sf == {b \in BS : b.s = s /\ b.lvl = "s" /\ b.n = n} IN
        IF m # {} THEN (CHOOSE b \in m : TRUE).o
        ELSE IF n = "arguments" /\ Kind(s) = "fn" THEN Args(s)
        ELSE IF sf # {} THEN (CHOOSE b \in sf : TRUE).o
-       ELSE Look(BS, n, Par(s), FALSE)
+       ELSE LookG(BS, n, Par(s), FALSE, merged)
+Look(BS, n, s, po) == LookG(BS, n, s, po, FALSE)
+LookOut(BS, n, s, po) == LookG(BS, n, s, po, TRUE)
 
 \* One symbol per binding, except that a simple catch parameter and a var of
 \* the same name declared below it are one symbol (esbuild merges them; they
@@ -177,7 +206,12 @@ SetToSeq(S, key(_)) ==
               ELSE LET x == CHOOSE x \in T : \A y \in T : key(x) <= key(y) IN <<x>> \o F(T \ {x})
   IN F(S)
 
-TopLevelB(y) == Kind(y.s) = "file"
+\* top-level symbols of the chunk (NumberRenamer: the root scope).  The module
+\* scope of a CommonJS-wrapped file is a nested scope below the root scope.
+TopLevelB(y) == Kind(y.s) = "file" /\ ~CJSFile(y.s)
+\* MinifyRenamer: nested-scope slots are assigned per file at parse time, when the
+\* wrapper kind is not known: every module-level symbol gets a top-level slot
+FileLevel(y) == Kind(y.s) = "file"
 \* levels: every scope has a self level (the name of a named function/class
 \* expression) enclosing its main level
 LvlRank(y) == 2 * y.s + (IF y.lvl = "s" THEN 0 ELSE 1)
@@ -225,6 +259,8 @@ SameLevel(z, y) == (z.s = y.s /\ z.lvl = y.lvl) \/ (TopLevel(z) /\ TopLevel(y))
 (* After resolution: what is pinned, what is reserved                       *)
 
 FreeNames == {refs[k].name : k \in {k \in 1..NR : IsFree(res[k])}}
+\* the free names ComputeReservedNames collects
+ReservedFreeNames == {refs[k].name : k \in {k \in 1..NR : IsFree(res[k]) /\ (ReserveWrappedFree \/ ~InCJS(refs[k].scope))}}
 RefsTo(y) == {k \in 1..NR : ~IsFree(res[k]) /\ ~IsArgs(res[k]) /\ SymOf(res[k]) = y}
 ThroughWith(k) ==                         \* the lookup of reference k passes a with scope
   \E w \in Anc(refs[k].scope) \ (IF res[k].s = 0 THEN {} ELSE Anc(res[k].s)) : Kind(w) = "with"
@@ -248,7 +284,7 @@ Naming ==
   LET seq      == an.symseq
       pinned   == Eager({y \in Syms : PinnedDef(y)})
       free     == Eager(FreeNames)
-      reserved == ReservedWords \cup free \cup
+      reserved == ReservedWords \cup Eager(ReservedFreeNames) \cup
                   {y.n : y \in {y \in pinned : TopLevel(y) \/ y.s \in EvalTainted \/ ReservePinnedNested}}
       RECURSIVE NumFold(_, _)
       NumFold(k, acc) ==      \* acc: function from the symbols processed so far to their names
@@ -265,13 +301,13 @@ Naming ==
       (* symbols: one slot each after the maximum nested slot count of all files. *)
       (* Names are handed out by decreasing use count, skipping reserved names.   *)
       unpinned == Eager(Syms \ pinned)
-      nested   == Eager({y \in unpinned : ~TopLevel(y)})
+      nested   == Eager({y \in unpinned : ~FileLevel(y)})
       nslot    == [y \in nested |-> Cardinality({z \in nested : Encloses(z, y) \/ (SameLevel(z, y) /\ Ord(z) < Ord(y))})]
       ncount   == IF nested = {} THEN 0 ELSE 1 + (CHOOSE m \in {nslot[y] : y \in nested} : \A y \in nested : nslot[y] <= m)
       uses     == [y \in Syms |-> 1 + Cardinality(RefsTo(y))]
       topkey(y) == 100000 * y.s + 1000 * (99 - uses[y]) + Ord(y)    \* per file by count, then order
-      topseq   == SetToSeq({y \in unpinned : TopLevel(y)}, topkey)
-      slot     == [y \in unpinned |-> IF TopLevel(y) THEN ncount + (CHOOSE k \in 1..Len(topseq) : topseq[k] = y) - 1 ELSE nslot[y]]
+      topseq   == SetToSeq({y \in unpinned : FileLevel(y)}, topkey)
+      slot     == [y \in unpinned |-> IF FileLevel(y) THEN ncount + (CHOOSE k \in 1..Len(topseq) : topseq[k] = y) - 1 ELSE nslot[y]]
       nslots   == ncount + Len(topseq)
       RECURSIVE Sum(_)
       Sum(T)   == IF T = {} THEN 0 ELSE LET x == CHOOSE x \in T : TRUE IN uses[x] + Sum(T \ {x})
@@ -300,7 +336,7 @@ NewRefName(f, k) == IF IsFree(res[k]) \/ IsArgs(res[k]) THEN refs[k].name ELSE f
 
 BindingPreserved(f) ==
   LET bs == RenamedBS(f) IN
-  \A k \in 1..NR : Look(bs, NewRefName(f, k), refs[k].scope, refs[k].pos = "param") = res[k]
+  \A k \in 1..NR : LookOut(bs, NewRefName(f, k), refs[k].scope, refs[k].pos = "param") = res[k]
 
 \* a reference seen through "with" or evaluated by direct eval keeps its source text
 SourceTextPreserved(f) ==
@@ -316,7 +352,7 @@ NoReservedOrFreeCapture(f) ==
   LET bs == RenamedBS(f) IN
   /\ \A y \in Syms : f[y] \notin ReservedWords
   /\ \A k \in 1..NR : (IsFree(res[k]) \/ IsArgs(res[k])) =>
-        Look(bs, refs[k].name, refs[k].scope, refs[k].pos = "param") = res[k]
+        LookOut(bs, refs[k].name, refs[k].scope, refs[k].pos = "param") = res[k]
 
 PinnedUnchanged(f) == \A y \in Syms : Pinned(y) => f[y] = y.n
 
@@ -346,16 +382,27 @@ Plans == IF Planned THEN [s : 1..MaxScopes, d : 1..MaxDecls, r : 1..MaxRefs]
          ELSE {[s |-> MaxScopes, d |-> MaxDecls, r |-> MaxRefs]}
 Init ==
   /\ plan \in Plans
-  /\ \E nf \in 1..MaxFiles : nf <= plan.s /\ scopes = [i \in 1..nf |-> [kind |-> "file", parent |-> 0, ev |-> FALSE]]
-  /\ decls = <<>> /\ refs = <<>> /\ phase = "scopes"
+  /\ \E nf \in 1..MaxFiles : nf <= plan.s /\ scopes = [i \in 1..nf |-> [kind |-> "file", parent |-> 0, ev |-> FALSE, wrap |-> "none"]]
+  /\ decls = <<>> /\ refs = <<>> /\ phase = "files"
   /\ an = <<>> /\ res = <<>> /\ nm = <<>>
+
+\* the wrapper kinds of the files: file 1 (the entry point) is a plain ES module;
+\* either all files are plain or (sampling: a few of) the other assignments
+WrapChoices == {w \in [1..NS -> Wraps \cup {"none"}] : w[1] = "none"}
+AllNone == [i \in 1..NS |-> "none"]
+ChooseWraps ==
+  /\ phase = "files"
+  /\ \E w \in {AllNone} \cup Cand(WrapChoices \ {AllNone}) :
+        scopes' = [i \in 1..NS |-> [scopes[i] EXCEPT !.wrap = w[i]]]
+  /\ phase' = "scopes"
+  /\ UNCHANGED <<decls, refs, plan, an, res, nm>>
 
 AddScope ==
   /\ phase = "scopes" /\ NS < plan.s
   /\ \E k \in Cand(ScopeKinds), p \in Cand(1..NS), e \in (IF AllowEval THEN BOOLEAN ELSE {FALSE}) :
         /\ p >= scopes[NS].parent                        \* canonical numbering: parents non-decreasing
         /\ (k = "with") => (~Strict(p) /\ ~e)
-        /\ scopes' = Append(scopes, [kind |-> k, parent |-> p, ev |-> e])
+        /\ scopes' = Append(scopes, [kind |-> k, parent |-> p, ev |-> e, wrap |-> ""])
   /\ UNCHANGED <<decls, refs, phase, plan, an, res, nm>>
 
 AddDecl ==
@@ -382,11 +429,15 @@ Analyse ==
 
 RefAllowed(s, n, pos) ==
   /\ (pos = "param") => (ParamRefs /\ Kind(s) \in {"fn", "arrow"})
-  \* "arguments" is an early error in a class static block (also through arrows)
+  \* "arguments" is an early error in a class static block (also through arrows);
+  \* at the top level of a file that is wrapped in a closure (__commonJS, __esm - also
+  \* a plain file that a wrapped file loads) it is the closure's own arguments object:
+  \* not generated when any file of the chunk is wrapped (a wrapping, not a renaming matter)
   /\ (n = "arguments") =>
         LET RECURSIVE Owner(_)
             Owner(u) == IF Kind(u) \in {"fn", "cls", "file"} THEN u ELSE Owner(Par(u))
-        IN Kind(Owner(s)) # "cls"
+        IN /\ Kind(Owner(s)) # "cls"
+           /\ ~(Kind(Owner(s)) = "file" /\ \E f \in 1..NS : Kind(f) = "file" /\ scopes[f].wrap # "none")
 
 AddRef ==
   /\ phase = "refs" /\ NR < plan.r
@@ -408,7 +459,7 @@ DoName ==
   /\ nm' = Naming /\ phase' = "done"
   /\ UNCHANGED <<scopes, decls, refs, plan, an, res>>
 
-Next == AddScope \/ AddDecl \/ Analyse \/ AddRef \/ DoResolve \/ DoName
+Next == ChooseWraps \/ AddScope \/ AddDecl \/ Analyse \/ AddRef \/ DoResolve \/ DoName
 Spec == Init /\ [][Next]_vars
 
 TypeOK ==
@@ -436,7 +487,9 @@ Coincidences ==
   (IF \E y, z \in Syms : y # z /\ NumNames[z] # z.n /\ y.n = NumNames[z] THEN {"generated-number-collision"} ELSE {}) \cup
   (IF \E y, z \in Syms : y # z /\ ~Pinned(z) /\ y.n = MinNames[z] THEN {"minified-name-declared"} ELSE {}) \cup
   (IF \E i \in 1..Len(MinSeq) : i <= Cardinality(Syms) + 1 /\ MinSeq[i] \in nm.free THEN {"minified-name-free"} ELSE {}) \cup
-  (IF \E y \in Syms : y.n \in nm.free THEN {"free-vs-declared"} ELSE {})
+  (IF \E y \in Syms : y.n \in nm.free THEN {"free-vs-declared"} ELSE {}) \cup
+  (IF \E k \in 1..NR : IsFree(res[k]) /\ InCJS(refs[k].scope) THEN {"free-in-commonjs-file"} ELSE {}) \cup
+  (IF \E y, z \in Syms : CJSFile(y.s) /\ TopLevel(z) /\ y.n = z.n THEN {"commonjs-vs-chunk-level"} ELSE {})
 
 Record ==
   [ sloppy |-> Sloppy,
@@ -451,6 +504,8 @@ Record ==
                   LET y == an.symseq[k] IN
                   [s |-> y.s, lvl |-> y.lvl, n |-> y.n, pinned |-> Pinned(y), top |-> TopLevel(y),
                    pinNotReserved |-> Pinned(y) /\ y.n \notin nm.reserved,
+                   \* the marker the binding holds when the program has finished (-2: no initialiser writes it)
+                   val |-> IF Writers(y) = {} THEN -2 ELSE an.mark[Min(Writers(y))],
                    slot |-> nm.slot[y], num |-> NumNames[y], min |-> MinNames[y]]],
     free   |-> nm.free,
     coinc  |-> Coincidences,
